@@ -18,6 +18,10 @@ func main() {
 		os.Exit(cmdExplore(os.Args[2:]))
 	case "check":
 		os.Exit(cmdCheck(os.Args[2:]))
+	case "c18worker":
+		n := 130
+		fmt.Sscan(os.Args[2], &n)
+		os.Exit(c18Worker(n, len(os.Args) > 3 && os.Args[3] == "thorough"))
 	default:
 		fmt.Fprintln(os.Stderr, "unknown command", os.Args[1])
 		os.Exit(2)
